@@ -1257,7 +1257,11 @@ func modI(x, y Integer) (Integer, error) {
 	if y == 0 {
 		return 0, exceptionalValueZeroDivisor
 	}
-	return x - (Integer(math.Floor(float64(x)/float64(y))) * y), nil
+	r := x % y
+	if r != 0 && (r < 0) != (y < 0) {
+		r += y // floored: the result takes the sign of the divisor
+	}
+	return r, nil
 }
 
 func negI(x Integer) (Integer, error) {
@@ -1301,7 +1305,11 @@ func intFloorDivI(x, y Integer) (Integer, error) {
 	case y == 0:
 		return 0, exceptionalValueZeroDivisor
 	default:
-		return Integer(math.Floor(float64(x) / float64(y))), nil
+		q := x / y
+		if x%y != 0 && (x < 0) != (y < 0) {
+			q-- // floored, not truncated
+		}
+		return q, nil
 	}
 }
 
